@@ -170,8 +170,18 @@ fn cohort_fields(w: &mut World, key: &str, m: &mut Map<String, Value>) {
                 m.insert(f.to_string(), json!(""));
             }
             _ => {
-                let n = w.draws.draw(&format!("{key}/{f}.v"), 4);
-                m.insert(f.to_string(), json!(format!("{f}-{n}")));
+                // mostly channel-like names; sometimes values a careless normalisation would change
+                let n = w.draws.draw(&format!("{key}/{f}.v"), 10);
+                let v = match n {
+                    0..=3 => format!("{f}-{n}"),
+                    4 => "  padded value  ".to_string(),
+                    5 => "UPPER-and-lower".to_string(),
+                    6 => "1:1:".to_string(),
+                    7 => "caf\u{e9}-\u{4e2d}".to_string(),
+                    8 => "q\"uote\\slash".to_string(),
+                    _ => "x".repeat(1100),
+                };
+                m.insert(f.to_string(), json!(v));
             }
         }
     }
@@ -185,7 +195,11 @@ fn daystart(w: &mut World, key: &str, top: &mut Map<String, Value>) {
             top.insert("daystart".into(), json!({}));
         }
         2 => {
-            let d = 4000 + w.draws.draw(&format!("{key}/daystart.v"), 3000);
+            let d = match w.draws.draw(&format!("{key}/daystart.x"), 8) {
+                0 => 0,
+                1 => u32::MAX as u64,
+                _ => 4000 + w.draws.draw(&format!("{key}/daystart.v"), 3000),
+            };
             top.insert("daystart".into(), json!({ "elapsed_days": d }));
         }
         _ => {
@@ -253,11 +267,14 @@ fn gen_updatecheck_ok(w: &mut World, key: &str) -> Value {
             }
             actions.push(Value::Object(a));
         }
-        let ver = match w.draws.draw(&format!("{key}/mver"), 4) {
+        let ver = match w.draws.draw(&format!("{key}/mver"), 7) {
             0 => "2.0.0.0".to_string(),
             1 => "2.1".to_string(),
             2 => "9.9.9.9".to_string(),
-            _ => "3.0.0.1".to_string(),
+            3 => "3.0.0.1".to_string(),
+            4 => String::new(),
+            5 => "v2 (not a version)".to_string(),
+            _ => "UNKNOWN".to_string(),
         };
         u.insert(
             "manifest".into(),
